@@ -86,10 +86,41 @@ RES_RE = re.compile(r'\*\* (\d+) of (\d+) failed')
 COV_RE = re.compile(r'\*\* (\d+) of (\d+) cover properties satisfied')
 
 
+def _watchdog(root, stop, limit_kb, killed):
+    """kill CBMC processes of this run whose resident set exceeds the limit: a harness that explodes (one was seen
+    at 57 GB) must end as `undecided` instead of taking down the machine and the other harnesses"""
+    while not stop.wait(5):
+        try:
+            out = subprocess.run(['ps', '-eo', 'pid,rss,args'], capture_output=True, text=True).stdout
+        except Exception:
+            continue
+        for line in out.split('\n')[1:]:
+            parts = line.split(None, 2)
+            if len(parts) < 3 or 'cbmc' not in parts[2] or root not in parts[2]:
+                continue
+            try:
+                pid, rss = int(parts[0]), int(parts[1])
+            except ValueError:
+                continue
+            if rss > limit_kb:
+                m = re.search(r'(k_[a-z0-9_]+)\.out', parts[2])
+                killed.append(m.group(1) if m else parts[2][-80:])
+                try:
+                    os.kill(pid, 9)
+                except OSError:
+                    pass
+
+
 def run_harnesses(crate, names, jobs=16, harness_timeout='10m', overall_timeout=3600, extra=()):
     """returns dict name -> result"""
     if not names:
         return {}
+    import threading
+    stop = threading.Event()
+    killed = []
+    limit_kb = int(os.environ.get('VERIF_CBMC_RSS_GB', '16')) << 20
+    wd = threading.Thread(target=_watchdog, args=(os.path.realpath(os.path.join(crate, '..')), stop, limit_kb, killed), daemon=True)
+    wd.start()
     cmd = ['cargo', 'kani', '-Z', 'stubbing', '-Z', 'unstable-options', '--output-format=terse', '--exact',
            '-j', str(jobs), '--harness-timeout', harness_timeout, '--output-into-files'] + list(extra)
     for n in names:
@@ -105,6 +136,7 @@ def run_harnesses(crate, names, jobs=16, harness_timeout='10m', overall_timeout=
             rc = -9
             # kill only the CBMC processes of THIS run (their command line mentions this scratch directory)
             subprocess.run(['pkill', '-f', os.path.realpath(os.path.join(crate, '..'))])
+    stop.set()
     wall = time.time() - t0
     text = open(log, errors='replace').read()
     results = {}
@@ -157,7 +189,7 @@ def run_harnesses(crate, names, jobs=16, harness_timeout='10m', overall_timeout=
             m = re.search(r'Verification Time: ([\d.]+)s', body)
             if m:
                 r['time_s'] = float(m.group(1))
-            if 'out of memory' in body:
+            if 'out of memory' in body or any(n.endswith(k) or k in n for k in killed):
                 r['status'] = 'oom'
             elif 'timed out' in body.lower() or 'TIMEOUT' in body:
                 r['status'] = 'timeout'
